@@ -142,6 +142,22 @@ def _beq(a, b):
     return SymBool(core._b(a) == core._b(b))
 
 
+def _snapshot_agrees(eng, name, ctl):
+    """HD61202Controller.get_snapshot() (an observation point of the property) shows the live chips."""
+    snap = ctl.get_snapshot()
+    conds = []
+    for i, chip in enumerate(ctl.chips):
+        s = snap.chips[i]
+        conds += [_beq(s.on, chip.state.on), s.start_line == chip.state.start_line, s.page == chip.state.page,
+                  s.y_address == chip.state.y_address]
+        cells = []
+        for p in range(8):
+            for col in range(64):
+                cells.append(T(s.vram[p][col]) & 0xFF == z3.ZeroExt(W - 8, z3.Select(chip.vram.arr, z3.BitVecVal(p * 64 + col, W))))
+        conds.append(SymBool(z3.And(cells)))
+    eng.prove(name, core._b(core.and_(*conds)), detail="get_snapshot() after this access reports on/start line/page/column/VRAM of both chips as they are now")
+
+
 # --------------------------------------------------------------------------- units
 def unit_decode(unit):
     """decode_access / parse_command for every address in both LCD windows and every value."""
@@ -285,6 +301,7 @@ def unit_route(unit):
         if kind == "write":
             val = eng.fresh("val", 8)
             eng.assume(core._b(rw_bit == 0))
+            ctl.get_snapshot()
             # reference: what the selected chips must look like afterwards (contracts of unit_chip)
             ctl.write(addr, val)
             cs = int(cs_bits)     # enumerates the four decodings
@@ -315,11 +332,14 @@ def unit_route(unit):
                         P(f"route:write:cs{cs}:chip{i}:busy", _beq(chip.state.busy, True), "every write raises the busy flag (status bit 7 on the next status read)")
                         k = z3.BitVec("k!cell", W)
                         P(f"route:write:cs{cs}:chip{i}:vram-unchanged", SymBool(z3.Select(chip.vram.arr, k) == z3.Select(g0[i], k)))
+            _snapshot_agrees(eng, f"route:write:cs{cs}:snapshot-is-current", ctl)
             return f"write cs={cs}"
         else:
             eng.assume(core._b(rw_bit == 1))
+            ctl.get_snapshot()          # an earlier observation must not be what a later one reports
             r = ctl.read(addr)
             cs = int(cs_bits)
+            _snapshot_agrees(eng, f"route:read:cs{cs}:snapshot-is-current", ctl)
             if cs in (0, 3):
                 P(f"route:read:cs{cs}:no-value", r is None, "reads with both / no chip selected return nothing")
                 for i in range(2):
